@@ -159,7 +159,9 @@ func (r *importReader) readString(save *[]string) {
 		for r.err == nil {
 			if r.nextByte(false) == '`' {
 				if save != nil {
-					*save = append(*save, string(r.buf[start:]))
+					// Carriage returns are discarded from raw string
+					// literals, as the Go scanner does.
+					*save = append(*save, string(bytes.ReplaceAll(r.buf[start:], []byte("\r"), nil)))
 				}
 				break
 			}
